@@ -104,6 +104,8 @@ pub fn normalize(n: &Sx) -> Sx {
 struct Base {
     tree: Sx,
     values: Vec<(Impl, usize, Option<V>)>,
+    /// some run was cut at the step bound: the program does not terminate (e.g. `^~ $ . :k`)
+    runaway: bool,
 }
 
 fn observe(text: &str, toks: Option<&[Tok]>, input_ids: &[usize]) -> Result<Base, &'static str> {
@@ -116,12 +118,16 @@ fn observe(text: &str, toks: Option<&[Tok]>, input_ids: &[usize]) -> Result<Base
     let tree = normalize(&sx::from_parse(parsed.get_root(), parsed.get_nodes()));
     let all = inputs();
     let mut values = vec![];
+    let mut runaway = false;
     for &ii in input_ids {
         for imp in Impl::BOTH {
             let got = match imp {
                 Impl::Simple => run_parsed(&mut new_simple(), &parsed, &all[ii], 1500),
                 Impl::Basic => run_parsed(&mut new_basic(), &parsed, &all[ii], 1500),
             };
+            if matches!(got, Got::StepLimit) {
+                runaway = true;
+            }
             let v = match got {
                 Got::Value(v) => Some(v),
                 _ => None,
@@ -129,7 +135,7 @@ fn observe(text: &str, toks: Option<&[Tok]>, input_ids: &[usize]) -> Result<Base
             values.push((imp, ii, v));
         }
     }
-    Ok(Base { tree, values })
+    Ok(Base { tree, values, runaway })
 }
 
 fn compare(kind: &'static str, ctxkey: &str, base_text: &str, base: &Base, var_text: &str, var: Result<Base, &'static str>, ctx: &mut CaseCtx) {
@@ -183,6 +189,14 @@ impl C18Check {
             }
         };
         ctx.class("base-accepted");
+        // a program that does not terminate has no value to compare, and hundreds of rewrites each run to the step bound cost
+        // minutes: its rewrites are judged on the parse tree alone
+        let input_ids: &[usize] = if base.runaway {
+            ctx.class("base-does-not-terminate-trees-only");
+            &[]
+        } else {
+            input_ids
+        };
         let mut pick = pick;
         let mut take = |n: u32| -> bool {
             match pick.as_mut() {
